@@ -199,6 +199,7 @@ Print Assumptions C19_quarter_turn_lattice_k3.
 
 Example C19_quarter_turn_nonvacuous : quarter_example = true.
 Proof. exact quarter_example_ok. Qed.
+Print Assumptions C19_quarter_turn_nonvacuous.
 
 (* --- neighbouring-cell angles --- *)
 Theorem C19_angle_value : forall (K : FOps) acosf clipf degf ax (o : idx -> K) i,
@@ -256,6 +257,7 @@ Print Assumptions C19_angle_mesh_other_axis_accepted.
 Example C19_angle_mesh_nonvacuous :
   check_angle_mesh_example = true.
 Proof. vm_compute. reflexivity. Qed.
+Print Assumptions C19_angle_mesh_nonvacuous.
 
 (* --- demag tensor assembly --- *)
 (* the 64-term signed sum is minus the triple second difference of the Newell-type function *)
